@@ -377,6 +377,10 @@ func (e *Extractor) IsCharacterLevel() (bool, error) {
 		return false, err
 	}
 
+	if err := e.requirePDF(); err != nil {
+		return false, err
+	}
+
 	page, err := e.reader.GetPage(0)
 	if err != nil {
 		return false, fmt.Errorf("reading page 1: %w", err)
@@ -405,6 +409,10 @@ func (e *Extractor) IsMultiColumn() (bool, error) {
 	}
 
 	if err := e.ensureReader(); err != nil {
+		return false, err
+	}
+
+	if err := e.requirePDF(); err != nil {
 		return false, err
 	}
 
@@ -1836,9 +1844,21 @@ func (e *Extractor) validateFormat() error {
 	return nil
 }
 
+// requirePDF reports an error when an operation that works on PDF pages (fragments, lines,
+// layout analysis, ...) is invoked on a document of another format, which has no PDF reader.
+func (e *Extractor) requirePDF() error {
+	if e.reader == nil {
+		return fmt.Errorf("operation is only supported for PDF documents, not for %s", e.format)
+	}
+	return nil
+}
+
 // resolvePages converts 1-indexed page numbers to 0-indexed and validates them.
 // If no pages specified, returns all pages.
 func (e *Extractor) resolvePages() ([]int, error) {
+	if err := e.requirePDF(); err != nil {
+		return nil, err
+	}
 	pageCount, err := e.reader.PageCount()
 	if err != nil {
 		return nil, fmt.Errorf("failed to get page count: %w", err)
